@@ -1,11 +1,12 @@
 (* Proof obligations tying Model/Policy.v (C16) to definitions regenerated from /repo's source on every run (Gen/Gen_policy.v):
      pgpy/pgp.py         the @KeyAction(...) line above each of PGPKey.sign / certify / revoke / revoker / bind / encrypt / decrypt
      pgpy/decorators.py  KeyAction.check_attributes, KeyAction.usage (the for / break / else scan over the key and its subkeys),
-                         the wrapper installed by KeyAction.__call__ (the two guards, usage, check_attributes, the call)
+                         the wrapper installed by KeyAction.__call__ (the two guards, the unknown-user refusal, usage,
+                         check_attributes ON THE COMPONENT usage() YIELDS, the call)
    Key objects are numbered as the model numbers components: 0 = the receiver, i = its i-th subkey. *)
 From Coq Require Import String ZArith List Bool Lia ZifyBool.
 Import ListNotations.
-Require Import PV.Model.Policy PV.Gen.Gen_base PV.Gen.Gen_policy.
+Require Import PV.Model.Policy PV.Proofs.Policy_lemmas PV.Gen.Gen_base PV.Gen.Gen_policy.
 Open Scope Z_scope.
 
 Definition opers : list oper := [OSign; OCertify; ORevoke; ORevoker; OBind; OEncrypt; ODecrypt].
@@ -23,14 +24,14 @@ Definition action_row (o : oper) : Z * list (Z * bool) :=
 Lemma refine_action_row o : action_row o = (op_flags o, map cond_code (op_conds o)).
 Proof. destruct o; reflexivity. Qed.
 
-(* check_attributes: raises PGPError exactly when the model reports a violated condition *)
-Lemma refine_check_attributes k o :
-  gen_check_attributes (fun a => attr_val k (attr_of_code a)) (snd (action_row o)) =
-  match check_attributes k o with None => GOk tt | Some _ => GRaise "PGPError" end.
+(* check_attributes on one key object (lock state c): raises PGPError exactly when the model reports a violated condition *)
+Lemma refine_check_attributes c o :
+  gen_check_attributes (fun a => attr_val c (attr_of_code a)) (snd (action_row o)) =
+  match check_attributes c o with None => GOk tt | Some _ => GRaise "PGPError" end.
 Proof.
   rewrite refine_action_row. unfold gen_check_attributes, check_attributes. cbn [snd].
   destruct o; cbn [op_conds map cond_code attr_code fst snd existsb find attr_of_code Z.eqb option_map attr_val];
-    destruct (is_unlocked k), (is_public k); reflexivity.
+    destruct (is_unlocked c), (is_public c); reflexivity.
 Qed.
 
 (* ---------- usage: the scan ---------- *)
@@ -73,12 +74,12 @@ Proof.
   intros H. apply find_some in H. destruct H as [H _]. apply in_map_iff in H. destruct H as [n [<- _]]. lia.
 Qed.
 
-(* the key usage() yields, for any selfsig rule (upick) and binding rule (pick) of the model.  Premise: component i of the receiver (0 = itself, i = its i-th subkey) reports the flag set g i,
-   i.e. no _get_key_flags call crashes *)
-Theorem refine_usage upick pick k o user g m :
-  comp_flags_with upick pick k user = map (fun i => FOk (g (Z.of_nat i))) (seq 0 (S m)) ->
+(* the key usage() yields, for any rules r of the model.  Premise: component i of the receiver (0 = itself, i = its i-th subkey)
+   reports the flag set g i, i.e. no _get_key_flags call raises (under rules_now none does: Props/C16.v C16_no_crash) *)
+Theorem refine_usage r k o user g m :
+  comp_flags_with r k user = map (fun i => FOk (g (Z.of_nat i))) (seq 0 (S m)) ->
   gen_usage (op_flags o) g (k_enforce k) 0 (map Z.of_nat (seq 1 m)) =
-  match usage_with upick pick k o user with
+  match usage_with r k o user with
   | Chosen i _ => GOk (Z.of_nat i) | Refused => GRaise "PGPError" | Crashed _ => GRaise "" end.
 Proof.
   intros H. unfold gen_usage, usage_with. destruct (op_flags o =? 0); cbn [negb]; [reflexivity|].
@@ -89,25 +90,40 @@ Proof.
   - rewrite last_ids. destruct (k_enforce k); reflexivity.
 Qed.
 
-(* the wrapper: the two guards, then usage, then check_attributes, then the method on the chosen component *)
-Theorem refine_key_action upick pick k o user g m :
-  comp_flags_with upick pick k user = map (fun i => FOk (g (Z.of_nat i))) (seq 0 (S m)) ->
+(* the wrapper: the two guards, the unknown-user refusal, then usage, then check_attributes ON THE YIELDED COMPONENT, then the method
+   on it.  getattr of key object c = the attribute of component c of the model; holds for every rule set that refuses an unknown
+   user= up front and checks the chosen component (rules_now; the rules before cab6d36 / a0cb78f do NOT refine the source any more) *)
+Theorem refine_key_action r k o user g m :
+  r_usercheck r = true -> r_onchosen r = true ->
+  comp_flags_with r k user = map (fun i => FOk (g (Z.of_nat i))) (seq 0 (S m)) ->
   gen_key_action (op_flags o) g (k_enforce k) 0 (map Z.of_nat (seq 1 m))
-                 (fun a => attr_val k (attr_of_code a)) (snd (action_row o))
-                 (negb (k_present k)) (Z.of_nat (length (k_uids k))) (k_primary k) (negb (is_certify o)) =
-  match perform_with upick pick k o user with
+                 (fun c a => attr_val (comp_attr k (Z.to_nat c)) (attr_of_code a)) (snd (action_row o))
+                 (negb (k_present k)) (Z.of_nat (length (k_uids k))) (k_primary k) (negb (is_certify o)) (user_unknown k user) =
+  match perform_with r k o user with
   | Run i _ => GOk (Z.of_nat i)
-  | NoKey | Incomplete | NoUsage | BadAttr _ => GRaise "PGPError"
+  | NoKey | Incomplete | NoUser | NoUsage | BadAttr _ => GRaise "PGPError"
   | Crash _ => GRaise "" end.
 Proof.
-  intros H. unfold gen_key_action, perform_with.
+  intros Hu Hc H. unfold gen_key_action, perform_with.
   destruct (k_present k); cbn [negb]; [|reflexivity].
   replace (Z.of_nat (length (k_uids k)) =? 0) with (length (k_uids k) =? 0)%nat by lia.
   destruct ((length (k_uids k) =? 0)%nat && k_primary k && negb (is_certify o)); [reflexivity|].
-  rewrite (refine_usage upick pick k o user g m H), refine_check_attributes.
-  destruct (usage_with upick pick k o user); try reflexivity.
-  destruct (check_attributes k o); reflexivity.
+  rewrite Hu, Hc. cbn [andb]. destruct (user_unknown k user); [reflexivity|].
+  rewrite (refine_usage r k o user g m H).
+  destruct (usage_with r k o user) as [i w| |c]; try reflexivity.
+  cbv zeta. rewrite Nat2Z.id, refine_check_attributes.
+  destruct (check_attributes (comp_attr k i) o); reflexivity.
 Qed.
+
+(* the rules before cab6d36 are refuted as a refinement of the source too: on the mixed key of Props/C16.v the generated wrapper
+   refuses (PGPError) where perform_old_lockcheck runs the method on the locked subkey *)
+Example refine_old_lockcheck_refuted :
+  let k := Policy_lemmas.mixed_key Policy_lemmas.a_plain Policy_lemmas.a_locked in
+  gen_key_action (op_flags OSign) (fun i => if i =? 0 then 33 else 2) (k_enforce k) 0 [1]
+                 (fun c a => attr_val (comp_attr k (Z.to_nat c)) (attr_of_code a)) (snd (action_row OSign))
+                 (negb (k_present k)) (Z.of_nat (length (k_uids k))) (k_primary k) (negb (is_certify OSign)) (user_unknown k None)
+  = GRaise "PGPError" /\ perform_old_lockcheck k OSign None = Run 1 false /\ perform k OSign None = BadAttr IsUnlocked.
+Proof. repeat split. Qed.
 
 (* the flags row of a method is what its wrapper scans for *)
 Lemma refine_action_flags o : fst (action_row o) = op_flags o.
@@ -115,7 +131,7 @@ Proof. rewrite refine_action_row. reflexivity. Qed.
 
 (* the premise of refine_usage / refine_key_action is inhabited: a primary key without user ids and subkeys reports {Certify} *)
 Example refine_usage_premise :
-  comp_flags_with newest_cert newest {| k_present := true; k_primary := true; k_uids := []; k_bind := []; k_subs := [];
-                            k_public := false; k_protected := false; k_unl := true; k_enforce := true |} None
+  comp_flags_with rules_now {| k_present := true; k_primary := true; k_uids := []; k_bind := []; k_subs := [];
+                               k_attr := {| a_public := false; a_protected := false; a_unl := true |}; k_enforce := true |} None
   = map (fun i => FOk ((fun _ => CERTIFY) (Z.of_nat i))) (seq 0 1).
 Proof. reflexivity. Qed.
